@@ -13,6 +13,12 @@ L2 `policy`   PartiallySerializableDesignerPolicy on an InRamPolicySupporter;
 L3 `service`  VizierServicer on a SQLite file; restart = new servicer on the
               same file. Grid coverage ledger (K suggestions == the K grid
               points, each once) and stream equality against a live designer.
+
+Trial histories include unusual metric reports (+-inf, NaN, beyond float32,
+denormal, -0.0; `c13_lib.gen_special`), so that the dumped state holds such
+numbers. Besides the per-step comparisons, the restart point itself is compared
+(L1: live vs restored population / dump -> load -> dump fixed point; L2,
+NSGA-II: a shadow policy kept alive on the same study vs the re-created one).
 """
 import copy
 import os
@@ -34,8 +40,21 @@ RULE = ('base case = (layer, designer in {grid, shuffled grid, quasi-random, eag
         'n<=3..4). A case = base x R x route (direct | KeyValue bytes | SQLite file). '
         'Non-trivial when at least one restart was injected after a step that changed the '
         'designer state; distinct = hash of (layer, designer, config, space shape, batch '
-        'profile, completion profile, R, route). Service layer: K-point spaces, K '
-        'suggestions over generated batch sizes, restart subsets enumerated.')
+        'profile, completion profile, R, route, special-value profile). Service layer: '
+        'K-point spaces, K suggestions over generated batch sizes, restart subsets '
+        'enumerated. 55% of the eagle / CMA-ES, 70% of the NSGA-II (90% at the policy layer) '
+        'base cases carry a special-value profile (drawn last from the case rng): each '
+        'reported metric (objectives and safety) is replaced with '
+        'probability p in {.25,.4,.6} by one of a drawn subset (always holding a non-finite '
+        'value) of {+inf, -inf, NaN, 1e300, '
+        '-1e300, 1e39, float32 max, 5e-324, 1e-310, -0.0, 0.1, 123456789.12345679, -1/3}, so '
+        'that the persisted state (population arrays, firefly pool, CMA state) holds such '
+        'numbers when it is dumped. Monitors: per step stream / phase / population / dump '
+        'equality as before, plus at every restart point itself live-vs-restored population '
+        '(NSGA-II; values, NaN positions, sign of zero, dtype, shape) or dump -> load -> dump '
+        'fixed point (others), plus at the policy layer a kept-alive shadow policy on the '
+        'same study against the policy re-created from study metadata (NSGA-II population '
+        'and trial counter).')
 ASSUMPTIONS = [
     'suggestions are compared by parameter values (int 1 == float 1.0), exactly (repr of float64)',
     'NSGA-II: suggestions themselves are not compared (its RNGs are documented as not '
@@ -48,6 +67,16 @@ ASSUMPTIONS = [
     'designers that refuse a generated problem in run A are skipped (counted as refused)',
     'L1 rebuilds the designer with the same constructor arguments (PartiallySerializable '
     'contract); L2 rebuilds it the way the production policy does (no seed)',
+    'unusual metric values (non-finite, out of float32 range, denormal, -0.0) are legal '
+    'reports: vz.Measurement and every designer accept them on the unchanged tree; if the '
+    'never-stopped run A raises on them the case is dropped (runA_raised), only a '
+    'difference between A and the restarted run is ever reported',
+    'population arrays are compared with NaN == NaN (any NaN payload / sign), -0.0 != 0.0, '
+    'equal dtype and shape; the dump -> load -> dump fixed point is compared on the '
+    'canonical metadata text (eagle dump_timestamp masked) and is skipped for CMA-ES '
+    'restarts that fall on a partially filled queue (known finding)',
+    'the L2 shadow policy never writes to the study (its decisions and metadata delta are '
+    'discarded); it reads trials through the same supporter as the serving policy',
 ]
 DET_KINDS = ['grid', 'sgrid', 'qr', 'eagle', 'cmaes']
 REQUIRED_COUNTERS = (
@@ -57,6 +86,9 @@ REQUIRED_COUNTERS = (
        'nsga2_mutation_phase_steps', 'eagle_pool_full_steps', 'dumps_compared',
        'cmaes_restarts_after_tell_with_empty_queue',
        'route:sql', 'route:kv', 'all_subsets_enumerated',
+       'special_metric_values_fed', 'restart_points_compared',
+       'restarts_with_nonfinite_state:nsga2', 'restarts_with_nonfinite_state:eagle',
+       'L2_shadow_populations_compared', 'L2_shadow_nonfinite_population_steps',
        'service_ledgers_checked', 'service_restarts', 'service_streams_compared'])
 MIN_DISTINCT = {'quick': 350, 'thorough': 6000}
 
@@ -73,7 +105,8 @@ def _abstraction(case):
   sc = case['script']
   return [case['layer'], case['designer']['kind'], L.dumps(case['designer'].get('cfg', {})),
           gen.space_shape(case['problem']['space']), len(case['problem']['metrics']),
-          sc['batches'], sc['p_complete'], sc['p_infeasible'], case['R'], case.get('route')]
+          sc['batches'], sc['p_complete'], sc['p_infeasible'], case['R'], case.get('route'),
+          L.dumps(sc.get('special'))]
 
 
 def _nsga_view(suggestions, ns='nsga2'):
@@ -96,14 +129,55 @@ def _pop_arrays(pop):
   return {k: np.asarray(v) for k, v in attr.asdict(pop).items()}
 
 
-def _pop_diff(pa, pb):
+def _pop_diff2(pa, pb):
+  """None or (anomaly class, text). Classes, from the shape of the difference:
+
+  shape:<field> | dtype:<field> | nonfinite-entry-changed:<field> (an entry that
+  is +-inf / NaN on the live side is something else on the restarted side, all
+  finite entries being equal) | values:<field>.
+  """
   a, b = _pop_arrays(pa), _pop_arrays(pb)
+  found = []
   for k in a:
     if a[k].shape != b[k].shape:
-      return f'{k}: shape {a[k].shape} vs {b[k].shape}'
-    if not np.array_equal(a[k].astype(np.float64), b[k].astype(np.float64), equal_nan=True):
-      return f'{k}: {a[k].tolist()} vs {b[k].tolist()}'
-  return None
+      found.append((0, f'shape:{k}', f'{k}: shape {a[k].shape} vs {b[k].shape}'))
+      continue
+    if a[k].dtype != b[k].dtype:
+      found.append((1, f'dtype:{k}', f'{k}: dtype {a[k].dtype} vs {b[k].dtype}'))
+      continue
+    fa, fb = a[k].astype(np.float64), b[k].astype(np.float64)
+    num = ~np.isnan(fa)   # NaN == NaN (whatever its sign bit); -0.0 != 0.0
+    if not (np.array_equal(np.isnan(fa), np.isnan(fb)) and np.array_equal(fa[num], fb[num])
+            and np.array_equal(np.signbit(fa[num]), np.signbit(fb[num]))):
+      text = f'{k}: {a[k].tolist()} vs {b[k].tolist()}'
+      fin = np.isfinite(fa)
+      if (not fin.all()) and np.array_equal(fa[fin], fb[fin]) and \
+          np.array_equal(np.signbit(fa[fin]), np.signbit(fb[fin])):
+        found.append((2, f'nonfinite-entry-changed:{k}', text))
+      else:
+        found.append((3, f'values:{k}', text))
+  if not found:
+    return None
+  # the most specific anomaly class names the mechanism (stable sort: field order)
+  _, cls, text = sorted(found, key=lambda t: t[0])[0]
+  return cls, text
+
+
+def _pop_diff(pa, pb):
+  d = _pop_diff2(pa, pb)
+  return d[1] if d else None
+
+
+def _pop_nonfinite(pop):
+  return any(v.dtype.kind == 'f' and v.size and not np.isfinite(v).all()
+             for v in _pop_arrays(pop).values())
+
+
+def _md_nonfinite(canon):
+  """True if a dumped state (canon_metadata form) carries a non-finite number."""
+  import re
+  return any(re.search(r'(?<![A-Za-z_"])(-?Infinity|NaN|nan|-?inf)(?![A-Za-z_"])', str(x[2]))
+             for x in canon)
 
 
 def _dump_mech(kind, case, e, fed_infeasible):
@@ -154,6 +228,11 @@ def exec_direct(ctx, case, router):
   fed_bare_infeasible = False
   for i, b in enumerate(script['batches']):
     if i in R:
+      if kind == 'cmaes':  # private reads: classification / coverage counters only
+        if A._trial_population.qsize() > 0:
+          cma_queue_at_restart = True
+        elif A._cma_es_jax.generation > 0:
+          ctx.count('cmaes_restarts_after_tell_with_empty_queue')
       try:
         md = B.dump()
       except Exception as e:  # pylint: disable=broad-except
@@ -174,13 +253,42 @@ def exec_direct(ctx, case, router):
       ctx.count(f'restarts_injected:{kind}')
       ctx.count(f'route:{route}')
       restarted = True
+      # ---- at the restart point itself: the fresh instance holds what the live one holds
+      if kind == 'nsga2':
+        ctx.count('restart_points_compared')
+        if _pop_nonfinite(A.population):
+          ctx.count('restarts_with_nonfinite_state:nsga2')
+        d = _pop_diff2(A.population, B.population)
+        if d and 'nsga2:population-differs-after-restart' not in fire.seen:
+          fire(f'nsga2:restored-population-differs-from-live:{d[0]}',
+               f'NSGA-II restart before step {i} ({route}): the population of the fresh '
+               f'instance after load() differs from the live one: {d[1]}'[:500], {'step': i})
+          ctx.case(_abstraction(case), True)
+          return 'done'
+      elif not (kind == 'cmaes' and cma_queue_at_restart) and \
+          'cmaes:restart-drops-partially-filled-population-queue' not in fire.seen:
+        # dump() is public: dump -> load -> dump gives back the same state
+        try:
+          d0, d1 = L.canon_metadata(md), L.canon_metadata(B.dump())
+        except Exception as e:  # pylint: disable=broad-except
+          fire(_dump_mech(kind, case, e, fed_bare_infeasible),
+               f'{kind}: dump() raised {type(e).__name__}: {e}', {'step': i})
+          ctx.case(_abstraction(case), True)
+          return 'raised'
+        ctx.count('restart_points_compared')
+        nonfinite = _md_nonfinite(d0)
+        if nonfinite:
+          ctx.count(f'restarts_with_nonfinite_state:{kind}')
+        if d0 != d1:
+          bad = [x[:2] for x, y in zip(d0, d1) if x != y][:3]
+          fire(f'redump-after-load-differs:{kind}' + (
+              ':state-holds-nonfinite-values' if nonfinite else ''),
+               f'{kind}: dump -> {route} -> new instance -> load -> dump differs from the '
+               f'first dump at keys {bad}', {'step': i, 'keys': bad})
+          ctx.case(_abstraction(case), True)
+          return 'done'
       if i > 0:
         state_changed_before_restart = True
-      if kind == 'cmaes':  # private reads: classification / coverage counters only
-        if A._trial_population.qsize() > 0:
-          cma_queue_at_restart = True
-        elif A._cma_es_jax.generation > 0:
-          ctx.count('cmaes_restarts_after_tell_with_empty_queue')
     try:
       sa = list(A.suggest(b))
     except Exception as e:  # pylint: disable=broad-except
@@ -246,7 +354,9 @@ def exec_direct(ctx, case, router):
     for tid in sorted(active):
       verdict = L.decide(script, tid, i)
       if verdict != 'wait':
-        L.complete_trial(pd, script, active[tid], verdict)
+        n_sp = L.complete_trial(pd, script, active[tid], verdict)
+        if n_sp:
+          ctx.count('special_metric_values_fed', n_sp)
         if verdict == 'infeasible':
           fed_bare_infeasible = True
         completed_now.append(active.pop(tid))
@@ -266,10 +376,11 @@ def exec_direct(ctx, case, router):
       break
     if kind == 'nsga2':
       ctx.count('populations_compared')
-      d = _pop_diff(A.population, B.population)
+      d = _pop_diff2(A.population, B.population)
       if d:
-        fire('nsga2:population-differs-after-restart',
-             f'NSGA-II after step {i}: population differs: {d}'[:400], {'step': i})
+        fire('nsga2:population-differs-after-restart' + (
+            '' if d[0].startswith('values:') else ':' + d[0]),
+             f'NSGA-II after step {i}: population differs: {d[1]}'[:400], {'step': i})
         break
     elif 'cmaes:restart-drops-partially-filled-population-queue' not in fire.seen:
       # dump() is a public method: states must be indistinguishable through it
@@ -297,8 +408,26 @@ def exec_direct(ctx, case, router):
 # ---------------------------------------------------------------------------
 # L2: the production policy wrapper
 # ---------------------------------------------------------------------------
-def _policy_run(pd, ds, seed, script, R, on_restart=None):
-  """Returns the per-step observation list of one run with restarts at R."""
+class _SupProxy:
+  """Supporter handle of the kept-alive shadow policy: always the current study."""
+
+  def __init__(self, cur):
+    self.cur = cur
+
+  def __getattr__(self, name):
+    return getattr(self.cur, name)
+
+
+def _policy_run(pd, ds, seed, script, R, on_restart=None, shadow=None):
+  """Returns the per-step observation list of one run with restarts at R.
+
+  shadow (a list, NSGA-II only): a second policy object is kept alive for the
+  whole run and receives every request first (its decisions are discarded, it
+  never writes to the study). After every request the population / trial
+  counter of its designer and those of the serving (re-created) policy's
+  designer - both have incorporated the same trials of the same study - are
+  appended to `shadow` as (step, diff or None, counters, nonfinite).
+  """
   from vizier import pythia
   from vizier import pyvizier as vz
   from vizier._src.algorithms.policies import designer_policy as dp
@@ -310,6 +439,11 @@ def _policy_run(pd, ds, seed, script, R, on_restart=None):
   policy = dp.PartiallySerializableDesignerPolicy(problem, sup, factory, seed=seed)
   obs = []
   queue_lost = False
+  live = proxy = None
+  if shadow is not None:
+    proxy = _SupProxy(sup)
+    live = dp.PartiallySerializableDesignerPolicy(copy.deepcopy(problem), proxy, factory,
+                                                  seed=seed)
   for i, b in enumerate(script['batches']):
     if i in R:
       if kind == 'cmaes' and policy._designer is not None and \
@@ -323,9 +457,19 @@ def _policy_run(pd, ds, seed, script, R, on_restart=None):
       sup = pythia.InRamPolicySupporter(problem)
       sup.AddTrials(trials)
       policy = dp.PartiallySerializableDesignerPolicy(problem, sup, factory, seed=seed)
+      if proxy is not None:
+        proxy.cur = sup
       if on_restart:
         on_restart()
+    if live is not None:
+      live.suggest(pythia.SuggestRequest(study_descriptor=sup.study_descriptor(), count=b))
     trials = sup.SuggestTrials(policy, b)
+    if live is not None:
+      la, lb = live.designer, policy.designer
+      shadow.append((i, _pop_diff2(la.population, lb.population),
+                     (la.dump().get('num_trials_seen', default=None),
+                      lb.dump().get('num_trials_seen', default=None)),
+                     _pop_nonfinite(la.population)))
     if kind == 'nsga2':
       v = _nsga_view(trials)
       obs.append({'phase': v[0], 'ids': v[1] if v[0] == 'sample' else None,
@@ -360,15 +504,34 @@ def exec_policy(ctx, case, ref=None):
   if not R:
     ctx.case(_abstraction(case), False)
     return A
+  shadow = [] if kind == 'nsga2' else None
   try:
     B = _policy_run(pd, ds, seed, script, R,
-                    on_restart=lambda: ctx.count(f'L2_restarts_injected:{kind}'))
+                    on_restart=lambda: ctx.count(f'L2_restarts_injected:{kind}'),
+                    shadow=shadow)
   except Exception as e:  # pylint: disable=broad-except
     fire(f'L2:restarted-run-raises:{kind}:{type(e).__name__}',
          f'policy layer, {kind}: the restarted run raised {type(e).__name__}: {e}')
     ctx.case(_abstraction(case), True)
     return A
   first = min(R)
+  for step, d, seen, nonfinite in shadow or ():
+    if step < first:
+      continue
+    ctx.count('L2_shadow_populations_compared')
+    if nonfinite:
+      ctx.count('L2_shadow_nonfinite_population_steps')
+    if d:
+      fire(f'L2:nsga2:policy-recreated-from-study-metadata-holds-different-population:{d[0]}',
+           f'policy layer, NSGA-II request {step}: a policy re-created from the study '
+           f'metadata (restarts at {sorted(R)}) and a policy object kept alive, same study, '
+           f'same trials, hold different populations: {d[1]}'[:500], {'step': step})
+      break
+    if seen[0] != seen[1]:
+      fire('L2:nsga2:policy-recreated-from-study-metadata-has-different-trial-counter',
+           f'policy layer, NSGA-II request {step}: num_trials_seen {seen[0]} (kept alive) vs '
+           f'{seen[1]} (re-created)', {'step': step, 'seen': list(seen)})
+      break
   for i, (oa, ob) in enumerate(zip(A, B)):
     ctx.count('L2_steps_compared')
     if kind == 'nsga2':
@@ -595,6 +758,12 @@ def gen_base(rng, layer, kind, tier):
     script['p_infeasible'] = rng.choice([0.0, 0.0, 0.2])
     script['infeasible_with_metrics'] = rng.random() < 0.5
   seed = rng.choice([0, 1, rng.getrandbits(16), rng.getrandbits(31)])
+  # drawn last: everything above is the same base case as before this was added
+  special = L.gen_special(rng, p_none=0.1 if (layer, kind) == ('policy', 'nsga2') else (
+      0.3 if kind == 'nsga2' else 0.45))
+  if special is not None and kind in ('eagle', 'nsga2', 'cmaes'):
+    # (grid / quasi-random never read a metric)
+    script['special'] = special
   return {'layer': layer, 'designer': ds, 'problem': pd, 'seed': seed, 'script': script}
 
 
